@@ -4,6 +4,7 @@ package main
 // (marker byte -> constructor called / rejected), read from the switch statement.
 
 import (
+	"go/types"
 	"bytes"
 	"fmt"
 	"go/ast"
@@ -144,59 +145,93 @@ func factsAmf0(p *pkgInfo, w *bytes.Buffer) error {
 	// Looked for anywhere in the package (the decoder may be one method or split into helpers, its locals may have
 	// any names): a slice expression `x[y.consumed():]` advancing past a child, and the fallback `x[y.Size():]` for
 	// a child VALUE only in the else branch of an `if c, ok := y.(consumer); ok {…} else {…}`.
+	// The advance is recognised by what it calls, wherever it is written: directly in a slice expression
+	// (`x[y.consumed():]`, `x[y.Size():]`) or through a helper of the package (`x[bytesTaken(y):]` whose body asserts
+	// `consumer` and falls back to `Size()`). A `Size()` of a child VALUE counts as guarded when the function it is
+	// written in asserts the `consumer` interface (the fallback of that assertion), unguarded otherwise.
 	usesConsumed, usesSize, guarded, sizeOutsideElse := false, false, false, false
 	isAmf0Value := func(e ast.Expr) bool {
 		tv, ok := p.info.Types[e]
 		return ok && tv.Type != nil && tv.Type.String() == p.pkg.Path()+".Amf0"
 	}
-	var scan func(n ast.Node, inElse bool)
-	scan = func(n ast.Node, inElse bool) {
-		ast.Inspect(n, func(n ast.Node) bool {
-			switch x := n.(type) {
-			case *ast.IfStmt:
-				if as, ok := x.Init.(*ast.AssignStmt); ok && len(as.Rhs) == 1 && x.Else != nil {
-					if ta, ok := as.Rhs[0].(*ast.TypeAssertExpr); ok {
-						if id, ok := ta.Type.(*ast.Ident); ok && id.Name == "consumer" {
-							guarded = true
-							scan(x.Body, inElse)
-							scan(x.Else, true)
-							return false
-						}
-					}
-				}
-			case *ast.SliceExpr:
-				if c, ok := x.Low.(*ast.CallExpr); ok && x.High == nil {
-					if se, ok := c.Fun.(*ast.SelectorExpr); ok {
-						switch se.Sel.Name {
-						case "consumed":
-							usesConsumed = true
-						case "Size":
-							if isAmf0Value(se.X) {
-								usesSize = true
-								if !inElse {
-									sizeOutsideElse = true
-								}
-							}
-						}
-					}
+	funcs := map[string]*ast.FuncDecl{}
+	for _, f := range p.files {
+		for _, d := range f.Decls {
+			if fd, ok := d.(*ast.FuncDecl); ok && fd.Body != nil && fd.Recv == nil {
+				funcs[fd.Name.Name] = fd
+			}
+		}
+	}
+	assertsConsumer := func(n ast.Node) bool {
+		found := false
+		ast.Inspect(n, func(x ast.Node) bool {
+			if ta, ok := x.(*ast.TypeAssertExpr); ok {
+				if id, ok := ta.Type.(*ast.Ident); ok && id.Name == "consumer" {
+					found = true
 				}
 			}
 			return true
 		})
+		return found
+	}
+	// classify one "how far to advance" expression written inside function body `encl`
+	var classify func(e ast.Expr, encl ast.Node, depth int)
+	classify = func(e ast.Expr, encl ast.Node, depth int) {
+		c, ok := e.(*ast.CallExpr)
+		if !ok {
+			return
+		}
+		switch fn := c.Fun.(type) {
+		case *ast.SelectorExpr:
+			switch fn.Sel.Name {
+			case "consumed":
+				usesConsumed = true
+			case "Size":
+				if isAmf0Value(fn.X) {
+					usesSize = true
+					if assertsConsumer(encl) {
+						guarded = true
+					} else {
+						sizeOutsideElse = true
+					}
+				}
+			}
+		case *ast.Ident:
+			if g := funcs[fn.Name]; g != nil && depth < 3 {
+				ast.Inspect(g.Body, func(x ast.Node) bool {
+					if r, ok := x.(*ast.ReturnStmt); ok {
+						for _, res := range r.Results {
+							classify(res, g.Body, depth+1)
+						}
+					}
+					return true
+				})
+			}
+		}
 	}
 	for _, f := range p.files {
 		for _, d := range f.Decls {
-			if fd, ok := d.(*ast.FuncDecl); ok && fd.Body != nil {
-				scan(fd.Body, false)
+			fd, ok := d.(*ast.FuncDecl)
+			if !ok || fd.Body == nil {
+				continue
 			}
+			ast.Inspect(fd.Body, func(n ast.Node) bool {
+				if x, ok := n.(*ast.SliceExpr); ok && x.High == nil && x.Low != nil {
+					classify(x.Low, fd.Body, 0)
+				}
+				return true
+			})
 		}
 	}
 	guarded = guarded && !sizeOutsideElse
 	// every container type implements consumed()
 	impl := 0
 	for _, t := range []string{"Object", "EcmaArray", "StrictArray"} {
-		if p.funcDecl(t, "consumed") != nil {
-			impl++
+		// by method set (declared on the type itself or promoted from an embedded struct)
+		if obj := p.pkg.Scope().Lookup(t); obj != nil {
+			if types.NewMethodSet(types.NewPointer(obj.Type())).Lookup(p.pkg, "consumed") != nil {
+				impl++
+			}
 		}
 	}
 	fmt.Fprintf(w, "/-- `objectBase.unmarshal` advances past a decoded child by `consumed()` (%v) for the %d/3 container types that\nimplement it, falling back to `a.Size()` (%v) only in the else branch of the `consumer` assertion (%v). When false the\ndecoder re-walks every child with `Size()` (quadratic on nested containers, finding K3). -/\ndef childAdvanceIsConstant : Bool := %v\n",
